@@ -2,7 +2,7 @@
 Lean simulator + snapshot + strategies; and impl-vs-impl route comparisons."""
 import random, re, struct
 from . import mc_suite, sim_suite, mc_checks
-from .common import run_pair, hash_text
+from .common import THOROUGH_SCALE, run_pair, hash_text
 
 NRE = re.compile(r"N(\[.*?\]) (?:E|F)\[")
 
@@ -26,9 +26,13 @@ TIMER_HEAVY = dict(p_timer=0.5, p_cancel=0.25, p_send=0.2, p_local=0.05, p_once=
                    locals=(2, 3), procs=(1, 3))
 
 
+SAME_NODE = dict(nodes=(1, 2), procs=(2, 4), p_send=0.6, p_local=0.15, p_timer=0.15, acts=(1, 3), rules=(2, 5), locals=(1, 3))
+
+
 def gen_snapshot_scenario(rng, with_steps=True, faults=True, walk=0):
     """a simulated prefix, then `mc run` (snapshot + exploration), optionally followed by a simulated walk"""
-    topo, rules, locals_ = base_system(rng, TIMER_HEAVY if rng.random() < 0.5 else None)
+    r = rng.random()
+    topo, rules, locals_ = base_system(rng, TIMER_HEAVY if r < 0.4 else SAME_NODE if r < 0.6 else None)
     nodes = [l.split()[1] for l in topo if l.startswith("node")]
     seed = rng.randrange(12)
     lines = [f"seed {seed}", f"draws {sim_suite.draws_for(seed)}"] + topo + rules
@@ -38,9 +42,13 @@ def gen_snapshot_scenario(rng, with_steps=True, faults=True, walk=0):
         for k in ("drop", "dupl", "corrupt"):
             if rng.random() < 0.3:
                 lines.append(f"net {k} {rng.choice([sim_suite.fbits(0.5), sim_suite.fbits(0.25)])}")
-    if len(nodes) > 1 and rng.random() < 0.3:
-        a, b = rng.sample(nodes, 2)
-        lines.append("net " + rng.choice([f"drop_in {a}", f"drop_out {a}", f"disable {a} {b}", f"partition {a} / {b}"]))
+    if rng.random() < 0.35:
+        # node-level controls also on single-node systems: traffic inside a node must not be affected by them
+        a = rng.choice(nodes); b = rng.choice([n for n in nodes if n != a] or [a])
+        ops = [f"drop_in {a}", f"drop_out {a}", f"disconnect {a}"]
+        if b != a:
+            ops += [f"disable {a} {b}", f"partition {a} / {b}"]
+        lines.append("net " + rng.choice(ops))
     for n in nodes:
         if rng.random() < 0.2:
             lines.append(f"skew {n} {rng.choice([1, 3])}")
@@ -64,7 +72,7 @@ def gen_snapshot_scenario(rng, with_steps=True, faults=True, walk=0):
 
 def run_snapshot(v, tier, seed, name="snapshot", n_quick=300, n_thorough=5000, walk=0, faults=True):
     rng = random.Random(seed * 7717 + 5)
-    scen = [(f"n{i}", gen_snapshot_scenario(rng, walk=walk, faults=faults)) for i in range(n_quick if tier == "quick" else n_thorough)]
+    scen = [(f"n{i}", gen_snapshot_scenario(rng, walk=walk, faults=faults)) for i in range(n_quick if tier == "quick" else n_thorough * THOROUGH_SCALE)]
     scen = mc_suite.corpus_scenarios("snap") + scen
     impl, model = run_pair("sim", [sim_suite.block(n, l) for n, l in scen])
     bad, nontriv, capped, states = [], set(), 0, 0
@@ -194,7 +202,7 @@ def gen_two_routes(rng):
 
 def run_two_routes(v, tier, seed, name="routes", n_quick=200, n_thorough=3000):
     rng = random.Random(seed * 3331 + 9)
-    pairs = [gen_two_routes(rng) for _ in range(n_quick if tier == "quick" else n_thorough)]
+    pairs = [gen_two_routes(rng) for _ in range(n_quick if tier == "quick" else n_thorough * THOROUGH_SCALE)]
     scen = []
     for i, (A, B) in enumerate(pairs):
         scen += [(f"a{i}", A), (f"b{i}", B)]
